@@ -1,4 +1,5 @@
 import SaModel.Lemmas.C01New
+import SaModel.Lemmas.C01LeafBridge
 /-
 `Shape b dt nullable md`: builder `b` is the builder of a field with data type `dt`, nullability `nullable`
 and metadata `md` (what `build_builder` establishes; unchanged by every push because it only looks at the part of
@@ -10,18 +11,7 @@ Utf8/LargeUtf8 builder, for which `Shape` is `False` (R1 covers them).
 namespace SaModel.Build
 open SaModel SaModel.Spec
 
-/-- the leaf kind of a data type: the table of `Spec.interpScalar` -/
-def kindOf (dt : DataType) : Option LeafKind :=
-  match dt with
-  | .boolean => some .bool
-  | .int8 => some (.int .i8) | .int16 => some (.int .i16) | .int32 => some (.int .i32) | .int64 => some (.int .i64)
-  | .uint8 => some (.int .u8) | .uint16 => some (.int .u16) | .uint32 => some (.int .u32) | .uint64 => some (.int .u64)
-  | .float16 => some .f16 | .float32 => some .f32 | .float64 => some .f64
-  | .date32 => some .date32 | .date64 => some .date64
-  | .time32 u => some (.time32 u) | .time64 u => some (.time64 u) | .duration u => some (.duration u)
-  | .timestamp u tz => some (.timestamp u tz (match tz with | some t => t.toUpper == "UTC" | none => false))
-  | .decimal128 p s => some (.decimal p s)
-  | _ => none
+/- `kindOf` (the leaf kind of a data type): Lemmas/C01LeafBridge.lean -/
 
 def bytesDT : BytesTy → DataType
   | .utf8 => .utf8 | .largeUtf8 => .largeUtf8 | .binary => .binary | .largeBinary => .largeBinary
@@ -134,11 +124,13 @@ theorem ShapeL.of_takeRest {fs fs' : BL} {sfs} (h : takeRestAll fs' = takeRestAl
 
 /-! ### scalars and nulls against the specification -/
 
+/-- the specification's leaf table at a column with a primitive-array builder: what `convLeaf` stores, read as a
+logical value (`convLeaf_eq_specLeaf`, Lemmas/C01LeafBridge.lean), up to which error -/
 theorem interpScalar_kind {ext : Ext} {dt : DataType} {k : LeafKind} (hk : kindOf dt = some k) (x : SVal) :
-    interpScalar ext dt x = (do
+    interpScalar ext dt x = normErr (do
       let v ← convLeaf ext k x
       pure (leafVal k v)) := by
-  cases dt <;> simp [kindOf] at hk <;> subst hk <;> simp only [interpScalar, leafVal] <;> rfl
+  rw [interpScalar_eq_old, interpScalarOld_kind hk]
 
 theorem kindOf_not_unknown {dt : DataType} {k : LeafKind} (hk : kindOf dt = some k) (md : Metadata) :
     isUnknownVariant dt md = false := by
@@ -204,7 +196,7 @@ theorem dict_interp_utf8 {ext : Ext} {x : SVal} {kdt vdt : DataType} {lv : LVal}
   rcases hu with h | hr
   · exact h
   · exfalso
-    simp only [interpScalar] at hi
+    simp only [interpScalar_eq_old, normErr_ok_iff, interpScalarOld] at hi
     cases hs : scalarToString ext x with
     | none => simp [hs, fail] at hi
     | some s =>
@@ -215,10 +207,10 @@ theorem dict_interp_utf8 {ext : Ext} {x : SVal} {kdt vdt : DataType} {lv : LVal}
 theorem interpScalar_dict_utf8 {ext : Ext} {x : SVal} {kdt vdt : DataType} {vals : B} {n : Bool} {md : Metadata}
     (hsv : Shape vals vdt n md) (hu : vals.isUtf8B = true) :
     interpScalar ext (.dictionary kdt vdt) x =
-      (match scalarToString ext x with
+      normErr (match scalarToString ext x with
       | some s => .ok (.str (strBytes s))
       | none => fail "not a string") := by
-  simp only [interpScalar]
+  simp only [interpScalar_eq_old, interpScalarOld]
   cases hs : scalarToString ext x with
   | none => rfl
   | some s => simp only [interpDictStr_utf8 ext s hsv hu]
